@@ -88,12 +88,20 @@ CHECKS["C04"] = dict(
          "the library's evaluator (compared, not verified). Numbers: decimal model, correspondences use <= 15 significant digits.",
     design="4/C04")
 CHECKS["C08"] = dict(
-    technique="Rocq theorems (round trip, shape, total classification of unpack at the value level) + exhaustive array tally",
-    text="C08_roundtrip, C08_shape, C08_total_classified for every parsed value / every message. Tied by the exhaustive "
-         "family of arrays over a 10-element alphabet (tallied inside Coq and through the real unpack), malformed/hostile "
-         "str and bytes frames, and random messages through pack and back. PARTIAL: the text layer (json.loads/dumps) is "
-         "CPython's and enters as the parsed value or the 'raised' outcome.",
-    note="Trusted: Coq kernel + VM, CPython json at the text level, the hand model of unpack/to_json (compared).", design="4/C08")
+    technique="Rocq theorems at the value level (round trip, shape, total classification of unpack) and at the text level "
+              "(json.loads modelled character by character: loads total on every text, loads(dumps v) = v, "
+              "unpack_text(pack_text m) = m) + exhaustive array tally + text correspondence against CPython json",
+    text="Value level: C08_roundtrip, C08_shape, C08_total_classified for every parsed value / every message. Text level: "
+         "C08_loads_total (every string gives a value, a ValueError or a RecursionError; the model's fuel is never exhausted), "
+         "C08_text_classified (FormatViolation iff not decodable), C08_json_roundtrip (loads (print_compact v) = v for every "
+         "representable v: ints within the 4300-digit limit, floats given by their repr, strs without an ambiguous surrogate "
+         "pair, distinct keys, nesting within the recursion budget), C08_text_roundtrip (unpack_text (pack_text m) = m). "
+         "Tied by the exhaustive family of arrays over a 10-element alphabet, malformed/hostile str and bytes frames, random "
+         "messages through pack and back, and the `text` correspondence: JsonParse.loads / unpack_text against CPython's "
+         "json.loads and the real unpack on number/string/structure zoos, layout variants, single-character mutations, the "
+         "measured recursion budget +-1 and the digit limit +-1. bytes input is decoded by CPython before the model sees it.",
+    note="Trusted: Coq kernel + VM, the hand models of json.loads / json.dumps / unpack / to_json (compared, not verified "
+         "against CPython's C source), the binary64 conversion inside the model (validated by the correspondence, no theorem).", design="4/C08")
 CHECKS["C18"] = dict(
     technique="Rocq theorem by induction over the frame list (start = in-order concatenation, ends only with recv) + loop correspondence",
     text="C18_in_order / C18_only_recv_ends_it: for every frame list the events of start() are, frame by frame, the receive "
